@@ -142,6 +142,9 @@ structure Cfg where
   max : Nat
   validTarget : Bool := true
   mustClosePort : Bool := false      -- `handle.MustClosePort` (false on Linux)
+  /-- the caller's context is done by the time the engine's goroutines have returned (ICMP and SACK
+      take a context; `TracerouteParallel` then reports `ctx.Err()` instead of a path) -/
+  cancelled : Bool := false
 deriving DecidableEq, Repr
 
 /-! ## Engine part -/
@@ -356,7 +359,7 @@ def icmp (cfg : Cfg) (plan : FaultPlan) (sched : List Step) : Obs :=
      l1 ++ [.close .source, .close .sink], hitOf plan .filter 0⟩ else
   -- newICMPDriver; defer driver.Close() (source, then sink); TracerouteParallel; ToHops
   let tr := parWalk plan cfg.min cfg.max { cnt := {} } sched
-  let r := parallelRun cfg.min cfg.max true tr.outs tr.sendErr false
+  let r := parallelRun cfg.min cfg.max true tr.outs tr.sendErr cfg.cancelled
   ⟨conclude cfg.min [W.outer.l, W.inner.l] [W.toHops.l] r tr.firstErr,
    l1 ++ tr.log ++ [.close .source, .close .sink], tr.hit⟩
 
@@ -468,7 +471,7 @@ def sackTail (cfg : Cfg) (plan : FaultPlan) (env : SackEnv) (pre : CallLog) (hpr
     ⟨.error [W.outer.l, W.setFilter.l, .cause (.injected .filter 1)], pre ++ [.filter] ++ sackClose2,
      hpre ++ hitOf plan .filter 1⟩ else
   let tr := parWalk plan cfg.min cfg.max { cnt := { nd := 1, nr := nr } } env.sched
-  let r := parallelRun cfg.min cfg.max true tr.outs tr.sendErr false
+  let r := parallelRun cfg.min cfg.max true tr.outs tr.sendErr cfg.cancelled
   ⟨conclude cfg.min [W.outer.l, W.inner.l] [W.toHops.l] r tr.firstErr,
    pre ++ [.filter] ++ tr.log ++ sackClose2, hpre ++ tr.hit⟩
 
